@@ -386,9 +386,9 @@ def _chunk(cases, seed, mode):
 
 
 def grid_cases(tier):
-    sizes = [0, 1, 54, 55, 56, 57, 62, 64, 100, 111, 113]
+    sizes = [0, 1, 54, 55, 56, 57, 64, 100, 111]
     if tier != "quick":
-        sizes += [41, 43, 63, 112, 168, 169]
+        sizes += [41, 43, 62, 63, 112, 113, 168, 169]
     kn = [(k, n) for n in range(1, 5) for k in range(1, n + 1)]
     out = []
     for size in sizes:
